@@ -5,6 +5,7 @@ import (
 	"bytes"
 	"encoding/json"
 	"fmt"
+	"math/rand"
 	"os"
 	"os/exec"
 	"reflect"
@@ -18,6 +19,7 @@ import (
 	"seehuhn.de/go/postscript/type1/names"
 
 	"vharness/corpus"
+	"vharness/fontgen"
 	"vharness/model"
 )
 
@@ -106,6 +108,11 @@ func isolateCmd(args []string) error {
 			for _, h := range v.Hist {
 				if h == "mutate-all-reachable" {
 					mutateAllReachable(a)
+					sum.PerOp[h]++
+					continue
+				}
+				if h == "library-calls" {
+					libraryCalls()
 					sum.PerOp[h]++
 					continue
 				}
@@ -337,4 +344,33 @@ func reachableDigest() string {
 		}()
 	}
 	return sb.String()
+}
+
+// libraryCalls uses every reader and writer of the library once, in the ways a program
+// would (explicit and default options, fonts with and without an encoding, the PDF
+// embedding form): none of it may leave a trace in package-level state.
+func libraryCalls() {
+	defer func() { recover() }()
+	rng := rand.New(rand.NewSource(7))
+	for _, enc := range []string{"none", "std-subset", "custom", "holes"} {
+		f := fontgen.Generate(rng, fontgen.Opts{NGlyphs: 4, Encoding: enc, Zone: "utc"})
+		var buf bytes.Buffer
+		f.WritePDF(&buf)
+		for _, ft := range t1Formats {
+			buf.Reset()
+			f.Write(&buf, &type1.WriterOptions{Format: ft.f})
+			if g, err := type1.Read(bytes.NewReader(buf.Bytes())); err == nil {
+				var b2 bytes.Buffer
+				g.Write(&b2, nil)
+				g.GlyphList()
+				g.FontBBoxPDF()
+			}
+		}
+	}
+	for _, in := range corpus.All(3) {
+		corpus.Run(in.Entry, bytes.NewReader(in.Data))
+	}
+	names.ToUnicode("Aacute_f_i.alt", false)
+	names.ToUnicode("a7", true)
+	names.FromUnicode(0x1F600)
 }
